@@ -384,6 +384,9 @@ def _stmts(fn, localish, counts):
     fn.body = do_list(fn.body)
 
 
+_CURRENT_KNOWN = frozenset()
+
+
 def _closure_expr(g):
     """the value expression of a parameterless local function whose body only returns: `return E`, or an if/else
     (also in guard form) of such returns -> conditional expression; None if it is anything else"""
@@ -417,7 +420,7 @@ def _inline_closures(fn):
     called, so substituting the body at each call site evaluates the same things at the same time."""
     import copy as _copy
 
-    for g in [st for st in fn.body if isinstance(st, ast.FunctionDef)]:
+    for g in [st for st in fn.body if isinstance(st, ast.FunctionDef) and st.name not in _CURRENT_KNOWN]:
         e = _closure_expr(g)
         if e is None:
             continue
@@ -454,7 +457,7 @@ def _inline_procedures(fn):
     call site, also inside nested functions of the same scope (closure variables are read at call time)."""
     import copy as _copy
 
-    for g in [st for st in fn.body if isinstance(st, ast.FunctionDef)]:
+    for g in [st for st in fn.body if isinstance(st, ast.FunctionDef) and st.name not in _CURRENT_KNOWN]:
         a = g.args
         if a.posonlyargs or a.kwonlyargs or a.vararg or a.kwarg or a.defaults or g.decorator_list or not a.args:
             continue
@@ -533,7 +536,7 @@ def normalise_function(fn):
     _stmts(fn, set(roles.function_locals(fn)), _names_used(fn))
 
 
-def _inline_trivial_helpers(tree):
+def _inline_trivial_helpers(tree, known=frozenset()):
     """N14: a direct call of an undecorated module-level function of the same module whose body is a single
     `return E` is E with the arguments substituted - when substitution cannot change what is evaluated or in which
     order: every argument is a name / attribute / constant, or every parameter occurs exactly once in E and E contains no
@@ -559,7 +562,7 @@ def _inline_trivial_helpers(tree):
             counts[n.name] = counts.get(n.name, 0) + 1
         if isinstance(n, ast.Name) and isinstance(n.ctx, ast.Store):
             counts[n.id] = counts.get(n.id, 0) + 1
-    helpers = {k: v for k, v in helpers.items() if counts.get(k, 0) == 1}
+    helpers = {k: v for k, v in helpers.items() if counts.get(k, 0) == 1 and k not in known}
 
     def simple(x):
         return isinstance(x, (ast.Name, ast.Constant)) or (isinstance(x, ast.Attribute) and simple(x.value))
@@ -601,7 +604,7 @@ def _inline_trivial_helpers(tree):
     ast.fix_missing_locations(tree)
 
 
-def _inline_tail_helpers(tree):
+def _inline_tail_helpers(tree, known=frozenset()):
     """N14b: `t = h(a, b)` where h is an undecorated, non-recursive module-level function of the same module called with
     plain names, and every `return E` of h is in tail position (last statement of the body, of both arms of an if, of a
     try body and its handlers): the statement is h's body with parameters replaced by the argument names, h's other locals
@@ -627,7 +630,7 @@ def _inline_tail_helpers(tree):
     for n in ast.walk(tree):
         if isinstance(n, ast.FunctionDef):
             counts[n.name] = counts.get(n.name, 0) + 1
-    defs = {k: v for k, v in defs.items() if counts.get(k) == 1}
+    defs = {k: v for k, v in defs.items() if counts.get(k) == 1 and k not in known}
     if not defs:
         return
 
@@ -727,9 +730,35 @@ def _inline_tail_helpers(tree):
     ast.fix_missing_locations(tree)
 
 
-def normalise(tree):
-    _inline_trivial_helpers(tree)
-    _inline_tail_helpers(tree)
+_KNOWN = None
+_CURRENT_KNOWN = frozenset()
+
+
+def known_functions(rel):
+    """function names of the reference tree (spec/known_functions.json, tools/gen_known_functions.py): the functions the
+    rules are written against.  Only helpers OUTSIDE this inventory - introduced by a later refactoring - are inlined by
+    N14 / N14b; the inventory is an aid for normalisation only, nothing is claimed from it."""
+    global _KNOWN
+    if _KNOWN is None:
+        import json
+        import os
+
+        p_ = os.path.join(os.path.dirname(os.path.dirname(os.path.abspath(__file__))), "spec", "known_functions.json")
+        try:
+            with open(p_, encoding="utf-8") as f:
+                _KNOWN = {k: frozenset(v) for k, v in json.load(f).items()}
+        except OSError:
+            _KNOWN = {}
+    return _KNOWN.get(rel)
+
+
+def normalise(tree, rel=None):
+    global _CURRENT_KNOWN
+    known = known_functions(rel) if rel is not None else None
+    _CURRENT_KNOWN = known if known is not None else frozenset()
+    if known is not None:
+        _inline_trivial_helpers(tree, known)
+        _inline_tail_helpers(tree, known)
 
     def visit(body):
         for st in body:
